@@ -18,6 +18,7 @@ from .lib.effects import Effects
 from .lib.facts import strip_generics
 from .lib.sites import panic_sites
 from .lib.symx import show, place_root, is_prefix
+from .lib.sites import literal_args, operand_root
 from . import c06_tables as T
 
 
@@ -45,7 +46,7 @@ def classify(decl, res, selfty):
         return 'third-party'
     if any(name.startswith(p) for p in T.TOTAL_PREFIXES):
         return 'total'
-    if T.TOTAL_RE.match(name):
+    if T.TOTAL_RE.match(name) or (res and T.TOTAL_ITER_RE.match(name)):
         return 'total'
     if not res:
         if any(decl.startswith(p) for p in T.USER_DECL_PREFIXES):
@@ -55,22 +56,51 @@ def classify(decl, res, selfty):
     return None
 
 
-def owner_name(f, body):
-    """The function of the reference tree a site belongs to: closures count with their parent, a helper that does
-    not exist on the reference tree with its single known caller.  Table keys use this name, so that turning a closure
-    into straight-line code (or extracting a helper) does not orphan an audited entry."""
+def owner_names(f, body):
+    """The functions of the reference tree a site belongs to: closures count with their parent, a helper that does
+    not exist on the reference tree with the known functions that call it (each of them must justify the site).
+    Table keys use these names, so that turning a closure into straight-line code (or extracting a helper) does not
+    orphan an audited entry."""
     b = body
     for _ in range(8):
         if b.kind == 'Closure' and b.parent and len(f.by_name.get(b.parent, [])) == 1:
             b = f.by_name[b.parent][0]
         elif f.is_unknown_helper(b):
-            cs = {c[0].nname for c in f.callers_of(lambda n, nn=b.nname: n == nn)}
-            if len(cs) != 1:
-                break
-            b = f.fn(cs.pop())
+            cs = sorted({c[0].nname for c in f.callers_of(lambda n, nn=b.nname: n == nn)})
+            if len(cs) == 1:
+                b = f.fn(cs[0])
+            else:
+                return cs or [b.nname]
         else:
             break
-    return b.nname
+    return [b.nname]
+
+
+def reaches_from(site, owner):
+    """Does the site occur on some path of `owner` once the helper it lives in is inlined there (with the constant
+    arguments that caller passes)?"""
+    kinds = ('call',) if site.raw['kind'] in ('call', 'panic') else ('assert',)
+    try:
+        ob = site.f.fn(owner)
+    except Exception:
+        return True
+    for p in site.ctx.paths(site.f, ob, 'none'):
+        for e in p.events:
+            if e['kind'] in kinds and e.get('block') == site.block and e.get('body') == site.body.nname:
+                return True
+    return False
+
+
+def for_each_owner(site, handler, *args):
+    """Run a discharge handler once per owning function; all must succeed."""
+    good = True
+    for o in site.owners:
+        if len(site.owners) > 1 and not reaches_from(site, o):
+            continue        # e.g. a shared helper's `if with_len_prefix {..}` branch seen from the caller passing false
+        site.owner = o
+        good = handler(site, *args) and good
+    site.owner = site.owners[0]
+    return good
 
 
 class Site:
@@ -79,7 +109,8 @@ class Site:
         self.body = raw['body']
         self.block = raw['block']
         self._paths = None
-        self.owner = owner_name(f, self.body)
+        self.owners = owner_names(f, self.body)
+        self.owner = self.owners[0]
 
     @property
     def paths(self):
@@ -152,6 +183,11 @@ def h_unwrap(site):
             c = calls[a[1]]
             if c['res'] == 'core::num::NonZero::new' and c['args'][0][0] == 'const' and (c['args'][0][2] or 0) != 0:
                 good = True
+            elif c['res'] == 'core::num::NonZero::new' and c['args'][0][0] == 'param' and site.body.kind != 'Closure' \
+                    and not site.body.reachable:
+                # NonZero::new(parameter) in a crate-private function: every call site passes a non-zero literal
+                lits = literal_args(site.f, site.body.nname, c['args'][0][2])
+                good = bool(lits) and all((o.get('val') not in (None, '0', 0)) and str(o.get('val')) != '0' for o in lits)
         allconst = allconst and good
     if allconst:
         return ok(site, 'constant folding: NonZero::new(non-zero literal)')
@@ -307,6 +343,20 @@ def h_swap_remove(site):
         calls = {c['id']: c for c in p.calls()}
         opt = q.some_payload(p, idx)
         good = opt is not None and opt[0] == 'call' and opt[1] in calls and calls[opt[1]]['res'].endswith('Iterator>::position')
+        if not good and idx[0] == 'fieldv' and idx[2] == '0':
+            # `for (pos, x) in v.iter().enumerate() { .. return v.swap_remove(pos) }`: pos < v.len()
+            item = q.some_payload(p, idx[1])
+            if item is not None and item[0] == 'call' and item[1] in calls and \
+                    calls[item[1]]['res'] == '<core::iter::Enumerate as core::iter::Iterator>::next':
+                vec = buffer_id(e['args'][0])
+                it = q.pre_havoc((calls[item[1]].get('derefs') or [None])[0] or calls[item[1]]['args'][0])
+                over_same = q.derives_from(p, it, lambda c: c['res'] == '<alloc::vec::Vec as core::ops::Deref>::deref'
+                                           and buffer_id(c['args'][0]) == vec)
+                j = [k for k, x in enumerate(p.events) if x['kind'] == 'call' and x['id'] == item[1]][0]
+                untouched = not any(x['kind'] == 'call' and any(a[0] == 'ref' and a[2] and buffer_id(a) == vec for a in x['args'])
+                                    for x in p.events[j + 1:i])
+                if over_same and untouched:
+                    continue
         if good:
             vec = buffer_id(e['args'][0])
             j = [k for k, x in enumerate(p.events) if x['kind'] == 'call' and x['id'] == opt[1]][0]
@@ -343,9 +393,10 @@ def h_audited_call(site):
         callers = site.f.callers_of(lambda n: n == 'config::Config::suspicion_duration')
         good = len(callers) >= 1
         for cb, bi, t in callers:
-            args = t['args']
-            lit = args[2]['k'] == 'const'
-            good = good and lit and cb.nname in ('config::Config::new_lan', 'config::Config::new_wan')
+            good = good and cb.nname in ('config::Config::new_lan', 'config::Config::new_wan')
+        # the multiplier is a literal at every call site (possibly forwarded through a shared constructor)
+        lits = literal_args(site.f, 'config::Config::suspicion_duration', 3)
+        good = good and bool(lits)
         return audited(site, key, good, 'suspicion_duration is called with a non-literal multiplier or from elsewhere')
     return audited(site, key)
 
@@ -421,6 +472,9 @@ def h_assert(site):
         if extra:
             return ok(site, 'audited: ' + T.AUDITED_ASSERTS[key])
         return bad(site, 'audited entry exists but its structural sub-condition no longer holds: ' + why)
+    for owner, pat, text in T.AUDITED_ASSERT_PATTERNS:
+        if owner == site.owner and pat.match(site.raw['desc']):
+            return ok(site, 'audited: ' + text)
     return bad(site, 'arithmetic/bounds assert without guard or audited entry (key %s)' % (key,))
 
 
@@ -854,7 +908,7 @@ def p_socketaddr_conflict(site):
 
 
 PANIC_CHECKS = {
-    ('broadcast::Broadcasts::add_or_replace', 'Gt(max_tx, 0) == 0'):
+    ('broadcast::Broadcasts::add_or_replace', 'Gt(<usize>, 0) == 0'):
         (p_add_or_replace_max_tx, 'every caller passes NonZero::get(config.max_transmissions)'),
     ('broadcast::Broadcasts::fill', 'is_empty(self.flop) == 0'):
         (p_flop_empty, 'flop is private to fill*, and append(&mut flop) follows the last push on every returning path'),
@@ -871,7 +925,7 @@ PANIC_CHECKS = {
         (p_updates_buf_untouched, 'nothing reachable from apply_many writes Foca.updates_buf'),
     ('Foca::probe_random_member', 'Eq(ConnectionState::Connected, self.connection_state) == 0'):
         (p_probe_connected, 'the only caller tests connection_state == Connected first'),
-    ('Foca::apply_update', 'Eq(self.identity, update.id) == 1'):
+    ('Foca::apply_update', 'Eq(<member::Member<T>>.id, self.identity) == 1'):
         (p_apply_update_not_self, 'each caller has compared the applied identity with self.identity and found them different'),
     ('Foca::become_disconnected', 'Eq(0, self.members.num_active) == 0'):
         (p_num_members(True), 'only called on the num_active() == 0 edge'),
@@ -883,9 +937,9 @@ PANIC_CHECKS = {
         (p_send_buf_untouched, 'no callee receives &mut self or &mut send_buf while the buffer is taken'),
     ('probe::Probe::expect_indirect_ack', '#probe-target-differs'):
         (p_expect_indirect_ack, 'guarded by is_probing(probed_id) and helpers are picked with candidate != probed_id'),
-    ('<codec::postcard_impl::PostcardCodec as codec::Codec>::decode_header', 'Eq(len(chunk(buf)), remaining(buf)) == 0'):
+    ('<codec::postcard_impl::PostcardCodec as codec::Codec>::decode_header', 'Eq(len(chunk(<impl Buf>)), remaining(<impl Buf>)) == 0'):
         (p_postcard_contiguous, 'Foca only passes &mut &[u8] to decode_*'),
-    ('<codec::postcard_impl::PostcardCodec as codec::Codec>::decode_member', 'Eq(len(chunk(buf)), remaining(buf)) == 0'):
+    ('<codec::postcard_impl::PostcardCodec as codec::Codec>::decode_member', 'Eq(len(chunk(<impl Buf>)), remaining(<impl Buf>)) == 0'):
         (p_postcard_contiguous, 'as decode_header'),
     ('<core::net::SocketAddr as identity::Identity>::win_addr_conflict', '#unconditional'):
         (p_socketaddr_conflict, 'unreachable: addr() is the identity and renew() is None'),
@@ -1019,10 +1073,10 @@ def check(ctx):
             site = Site(ctx, f, eff, rep, raw)
             if raw['kind'] == 'assert':
                 counts['assert'] += 1
-                h_assert(site)
+                for_each_owner(site, h_assert)
             elif raw['kind'] == 'panic':
                 counts['panic'] += 1
-                h_panic(site, cache)
+                for_each_owner(site, h_panic, cache)
             else:
                 if raw['res'] in f.by_name:
                     counts['local'] += 1
@@ -1034,13 +1088,14 @@ def check(ctx):
                 counts[cls] += 1
                 if cls == 'partial':
                     hid = T.PARTIAL.get(raw['res']) or T.PARTIAL.get(raw['decl'])
-                    CALL_HANDLERS[hid](site)
+                    for_each_owner(site, CALL_HANDLERS[hid])
         for name, raws in sorted(unclassified.items()):
             rep.violation('C06-R1', raws[0]['body'].nname, 'unclassified-callee:' + name,
                           'external callee %s is in no class (total/alloc/partial/user/third-party): a new dependency '
                           'on library behaviour must be classified' % name, site=raws[0]['span'])
         rep.ok('C06-R1', 'crate', 'enumerated panic sites and call sites', facts=dict(counts, generated_skipped=skipped))
-        floors = {'base': (15, 15, 30), 'wire': (16, 16, 33), 'nostd': (15, 12, 18), 'all': (16, 16, 33)}[cfgname]
+        # vacuity guards (about half of what the reference tree has: merging duplicated sites must not trip them)
+        floors = {'base': (10, 10, 18), 'wire': (10, 10, 20), 'nostd': (10, 8, 12), 'all': (10, 10, 20)}[cfgname]
         rep.floor('C06-R1', counts['assert'], floors[0], 'Assert terminators (%s)' % cfgname)
         rep.floor('C06-R1', counts['panic'], floors[1], 'core::panicking call sites (%s)' % cfgname)
         rep.floor('C06-R1', counts['partial'], floors[2], 'calls to partial library routines (%s)' % cfgname)
